@@ -347,7 +347,10 @@ def main(argv=None):
     sys.path[:] = [p for p in sys.path if p not in ("", ".")]
     try:
         import ebpfcat
-        if not os.path.abspath(ebpfcat.__file__).startswith("/repo/"):
+        # VF_DEV_REPO: developer-only (tools/devcheck.sh runs a scratch copy
+        # of the tree with a seeded change); registered commands never set it
+        repo = os.environ.get("VF_DEV_REPO", "/repo").rstrip("/") + "/"
+        if not os.path.abspath(ebpfcat.__file__).startswith(repo):
             raise HarnessError(f"ebpfcat imported from {ebpfcat.__file__}")
         modname = f"vf.props.{pid.lower()}"
         mod = importlib.import_module(modname)
